@@ -65,7 +65,7 @@ class PopulationTemplate:
         self.n = n
         self.params = params or {}
 
-    def apply(self, label: str = None) -> tuple:
+    def apply(self, label: str = None, values: dict = None) -> tuple:
         """Instantiate a ``VectorizedNodeIR`` for this population of size *n*.
 
         Returns
@@ -75,6 +75,9 @@ class PopulationTemplate:
             ``OperatorGraphTemplate.apply()``.
         """
         label = label if label is not None else self.name
+        params = dict(self.params)
+        if values:
+            params.update(values)
 
         # Apply the base NodeTemplate once with no value overrides.
         # vectorize=False forces creation of a fresh VectorizedNodeIR (length=1)
@@ -86,7 +89,7 @@ class PopulationTemplate:
             op_vars = vec_node.op_graph.nodes[op_key]['variables']
             for var_key, var_data in op_vars.items():
                 if var_data['vtype'] not in ('state_var', 'constant', 'variable') and \
-                        f"{op_key}/{var_key}" not in self.params:
+                        f"{op_key}/{var_key}" not in params:
                     # input / input_variable are managed externally — leave untouched (unless `params` provides the
                     # value(s) that the input takes while nothing is connected to it)
                     continue
@@ -95,8 +98,8 @@ class PopulationTemplate:
                 base_val = raw[0] if isinstance(raw, list) and raw else raw
 
                 param_key = f"{op_key}/{var_key}"
-                if param_key in self.params:
-                    pval = self.params[param_key]
+                if param_key in params:
+                    pval = params[param_key]
                     if hasattr(pval, '__len__') and len(pval) == self.n:
                         new_val = list(pval)
                     else:
@@ -112,7 +115,7 @@ class PopulationTemplate:
         # report entries of `params` that address no variable of the node (they would be dropped silently otherwise)
         known = {f"{op_key}/{var_key}" for op_key in vec_node.op_graph.operators
                  for var_key in vec_node.op_graph.nodes[op_key]['variables']}
-        for param_key in self.params:
+        for param_key in params:
             if param_key not in known:
                 warn(PyRatesWarning(f"Parameter {param_key} of population {label} addresses no variable of its node template "
                                     f"and has no effect."))
